@@ -58,7 +58,19 @@ func genC09(seed int64, tier string) *Scenario {
 			sc.Targets[j].Phases = []Phase{{Until: a + 7*time.Millisecond, Kind: "ok"}, failPhase(rng, sc.HC.Timeout, a+3*interval+7*time.Millisecond), {Kind: "ok"}}
 		}
 	}
-	sc.Actors = append(sc.Actors, ActorSpec{Name: "op", Ops: []Op{{Kind: "deploy", Service: "web", Targets: names, DeployTimeout: 5 * time.Second, DrainTimeout: time.Second}}})
+	deployTimeout := 5 * time.Second
+	if rng.Intn(6) == 0 {
+		// one target answers its first 2xx just before the deploy timeout, and
+		// the goroutine completing that probe is descheduled across the expiry
+		j := rng.Intn(len(sc.Targets))
+		for i := range sc.Targets {
+			if i != j {
+				sc.Targets[i].Phases = nil
+			}
+		}
+		deployTimeout = deadlineRace(rng, sc, &sc.Targets[j], interval)
+	}
+	sc.Actors = append(sc.Actors, ActorSpec{Name: "op", Ops: []Op{{Kind: "deploy", Service: "web", Targets: names, DeployTimeout: deployTimeout, DrainTimeout: time.Second}}})
 	nc := 1 + rng.Intn(4)
 	for c := 0; c < nc; c++ {
 		a := ActorSpec{Name: fmt.Sprintf("client%d", c)}
@@ -365,6 +377,9 @@ func checkC09(r *RunResult) []Violation {
 	// to a target although every target's failure was published is covered by (a).
 	// (d) probes keep arriving at the configured cadence for the whole run
 	z := slack(r.Sc)
+	for _, th := range r.Sc.TaskHolds {
+		z += th.Hold.Max // a probe goroutine that is descheduled does not probe
+	}
 	lastProbe := map[string]time.Duration{}
 	for i := range r.H.Events {
 		e := &r.H.Events[i]
